@@ -112,7 +112,7 @@ def run_verus_unit(unit, scratch, tier, seed):
     for rf in gv.reach:
         ok = rf.name in failed_fns
         ur.vacuity[rf.name] = ok
-        if not ok:
+        if not ok and not any("reachability variant did not run" in u or "not a verification result" in u for u in ur.undecided):
             ur.undecided.append(f"vacuous contract: `ensures false` verifies for {rf.name} (contradictory requires, or unreachable exit)")
     for f in g.fns:
         d = {"name": f"{unit}::{f.name}", "kind": f.kind, "props": f.props}
